@@ -76,6 +76,17 @@ CLAIMED["C35"] = ("flow", "exploration",
    "No transport/encryption underneath (packet connection supplied through the verif hook); two real stacks with default windows are exercised by the C31 harness. The TLA+ model mentioned in the property's quantifier is a different technique and not used.",
    "DESIGN.md section 4 H-flow")
 
+CLAIMED["C43"] = ("agent", "exploration",
+   "deterministic simulation of concurrent agent clients, ServeAgent tasks and direct keyring callers on simulated pipes with a fake clock; linearizability of the recorded history against an abstract agent (porcupine); separate fault configuration with malformed frames and pipe faults",
+   "One keyring is used concurrently by direct callers and through 0-3 agent client connections (pipelined or serial), each served by its own ServeAgent task over a simulated pipe, under seeded schedules, while the fake clock crosses key lifetimes. The invoke/return history, stamped with the simulator's event sequence numbers, is checked for linearizability against an abstract agent (keys with expiry, locked flag, passphrase) with porcupine; every returned signature is verified under the named key; nothing is signed or listed while locked or for absent/expired keys. Fault configuration: truncated, oversized, mutated and random request frames, pipe close/reset/write errors at arbitrary bytes, stalls: ServeAgent and clients never panic, every caller returns, replies are not delivered to the wrong caller. Seeded sampling; histories <= 40 operations.",
+   "Observations within +-100 ms of an expiry instant and a few unspecified cases (Add while locked, Unlock while unlocked, flags other than 0/2/4) are accepted either way. The porcupine check runs outside the bubble with a 30 s wall-clock timeout; a timeout counts as inconclusive, never as violation.",
+   "DESIGN.md section 4 H-agent")
+CLAIMED["C34"] = ("cauth", "exploration",
+   "deterministic simulation of the real client against a scripted server (after a real key exchange) and against the real server with generated method chains; the request history is decoded from ciphertext by the independent wire monitor",
+   "System A: a real NewClientConn with generated auth methods (password, keyboard-interactive, public keys of every type, certificates, MultiAlgorithmSigner restrictions, AuthCallback, RetryableAuthMethod) faces a server scripted packet by packet after a real key exchange (failure lists, partial success, PK_OK naming another key or algorithm, banners, EXT_INFO present/partial/absent, close/disconnect). From the decoded request history: after the initial none every method is in the most recent list the server sent, a signature is sent only directly after a PK_OK for that key and algorithm, the signature algorithm follows the documented preference, nothing follows USERAUTH_SUCCESS, attempts are bounded, signatures verify over the real session id. System B: real client against real server with generated compatible chains incl. partial success must authenticate. Seeded sampling.",
+   "Preference order of a bare AlgorithmSigner is undocumented and not asserted (membership only). After the server-to-client direction is cut the list oracles are suspended.",
+   "DESIGN.md section 4 H-cauth")
+
 NA = {
  "C01": "pure function of (key, nonce, plaintext, ad): no schedule, clock, peer, stream fault or persisted state for a simulator to own; needs an independent AEAD and input generation (differential testing)",
  "C02": "pure predicate over byte strings; tampering here is input mutation, not an in-flight fault on a stateful stream",
@@ -118,8 +129,8 @@ NA = {
 
 PLANNED = {
   
-  "C34": "H-cauth",  "C36": "H-mux",
- "C43": "H-agent",   "C51": "H-autocert",
+    "C36": "H-mux",
+    "C51": "H-autocert",
 }
 
 def main():
